@@ -8,23 +8,36 @@
      bounded loop, so that the two can be proved equal on a window by TLC (SliceTheorems) and the
      saturation lemma can be discharged for all integers by Apalache (SliceSat.tla).
 
-   A slice parameter is <<"none">> or <<"int", n>>.  Step 0 is an error on arrays (handled by Eval). *)
+   A slice parameter is <<"none">>, <<"int", n>> or <<"huge", sign, k>>: the k-th entry of HugeTable
+   with the given sign, a magnitude beyond TLC's 32-bit integers (up to 2^63).  By the saturation
+   lemma every magnitude greater than len+1 selects the same elements as len+1, so a huge value is
+   *evaluated* as sign * (len + 2); its spelling is its decimal text.
+   Step 0 is an error on arrays (handled by Eval). *)
 EXTENDS JSONValue
 
 NoneP == <<"none">>
 IntP(n) == <<"int", n>>
-HasP(p) == p[1] = "int"
+HugeP(sign, k) == <<"huge", sign, k>>
+HasP(p) == p[1] # "none"
+IsHuge(p) == p[1] = "huge"
+(* decimal digits of the huge magnitudes: 2^31-1, 2^31, 2^62, 2^63-1, 2^63 (the last only negated) *)
+HugeTable == << <<50, 49, 52, 55, 52, 56, 51, 54, 52, 55>>, <<50, 49, 52, 55, 52, 56, 51, 54, 52, 56>>,
+                <<52, 54, 49, 49, 54, 56, 54, 48, 49, 56, 52, 50, 55, 51, 56, 55, 57, 48, 52>>,
+                <<57, 50, 50, 51, 51, 55, 50, 48, 51, 54, 56, 53, 52, 55, 55, 53, 56, 48, 55>>,
+                <<57, 50, 50, 51, 51, 55, 50, 48, 51, 54, 56, 53, 52, 55, 55, 53, 56, 48, 56>> >>
+(* the integer a parameter stands for when slicing an array of length n *)
+PV(p, n) == IF p[1] = "huge" THEN p[2] * (n + 2) ELSE p[2]
 
 Clamp(x, lo, hi) == IF x < lo THEN lo ELSE IF x > hi THEN hi ELSE x
 NormIdx(x, n) == IF x < 0 THEN x + n ELSE x
 
 (* start, stop, step after defaults and clamping; n = array length; step # 0 *)
 SliceBounds(n, parts) ==
-  LET step == IF HasP(parts[3]) THEN parts[3][2] ELSE 1
-      start == IF step > 0 THEN (IF HasP(parts[1]) THEN Clamp(NormIdx(parts[1][2], n), 0, n) ELSE 0)
-                           ELSE (IF HasP(parts[1]) THEN Clamp(NormIdx(parts[1][2], n), -1, n - 1) ELSE n - 1)
-      stop == IF step > 0 THEN (IF HasP(parts[2]) THEN Clamp(NormIdx(parts[2][2], n), 0, n) ELSE n)
-                          ELSE (IF HasP(parts[2]) THEN Clamp(NormIdx(parts[2][2], n), -1, n - 1) ELSE -1)
+  LET step == IF HasP(parts[3]) THEN PV(parts[3], n) ELSE 1
+      start == IF step > 0 THEN (IF HasP(parts[1]) THEN Clamp(NormIdx(PV(parts[1], n), n), 0, n) ELSE 0)
+                           ELSE (IF HasP(parts[1]) THEN Clamp(NormIdx(PV(parts[1], n), n), -1, n - 1) ELSE n - 1)
+      stop == IF step > 0 THEN (IF HasP(parts[2]) THEN Clamp(NormIdx(PV(parts[2], n), n), 0, n) ELSE n)
+                          ELSE (IF HasP(parts[2]) THEN Clamp(NormIdx(PV(parts[2], n), n), -1, n - 1) ELSE -1)
   IN <<start, stop, step>>
 
 (* 0-based positions selected, in selection order *)
@@ -42,14 +55,14 @@ CapSlice(length, actual0, step) ==
   IF actual0 < 0
   THEN LET a == actual0 + length IN
        IF a < 0 THEN (IF step < 0 THEN -1 ELSE 0) ELSE a
-  ELSE IF actual0 >= length THEN (IF step < 0 THEN length - 1 ELSE length)
+  ELSE IF (IF "CapSliceOffByOne" \in Dev THEN actual0 > length ELSE actual0 >= length) THEN (IF step < 0 THEN length - 1 ELSE length)
   ELSE actual0
 
 CodeParams(length, parts) ==
-  LET step == IF HasP(parts[3]) THEN parts[3][2] ELSE 1
+  LET step == IF HasP(parts[3]) THEN PV(parts[3], length) ELSE 1
       neg == step < 0
-      start == IF ~HasP(parts[1]) THEN (IF neg THEN length - 1 ELSE 0) ELSE CapSlice(length, parts[1][2], step)
-      stop == IF ~HasP(parts[2]) THEN (IF neg THEN -1 ELSE length) ELSE CapSlice(length, parts[2][2], step)
+      start == IF ~HasP(parts[1]) THEN (IF neg THEN length - 1 ELSE 0) ELSE CapSlice(length, PV(parts[1], length), step)
+      stop == IF ~HasP(parts[2]) THEN (IF neg THEN -1 ELSE length) ELSE CapSlice(length, PV(parts[2], length), step)
   IN <<start, stop, step>>
 
 RECURSIVE CodeLoop(_, _, _, _)
@@ -64,7 +77,7 @@ Monotone(n, parts) ==
   \A k \in 1..(Len(ps) - 1) : ps[k + 1] - ps[k] = step
 CodeAgrees(n, parts) == CodePositions(n, parts) = SlicePositions(n, parts)
 (* saturating any present bound to +-(n+1) and any step to +-(n+1) does not change the selection *)
-Sat(p, n) == IF HasP(p) THEN IntP(Clamp(p[2], -(n + 1), n + 1)) ELSE p
+Sat(p, n) == IF HasP(p) THEN IntP(Clamp(PV(p, n), -(n + 1), n + 1)) ELSE p
 Saturation(n, parts) ==
   SlicePositions(n, parts) = SlicePositions(n, <<Sat(parts[1], n), Sat(parts[2], n), Sat(parts[3], n)>>)
 FullReverse(n) == SlicePositions(n, <<NoneP, NoneP, IntP(-1)>>) = [k \in 1..n |-> n - k]
